@@ -149,4 +149,125 @@ theorem scpiLex_SuffixProgramData_ref (buf : Lexer.Bytes) (n : Nat) (tok : CTok)
   simp [res, tk, Lexer.mkTok]
   lexc_close
 
+/-! ### program headers -/
+
+/-- the end-of-input test on a clean state, in the two forms `simp` leaves it in -/
+theorem iseos_eq0 (buf : Lexer.Bytes) (m : Nat) : (iseos (st buf m) = 0) = (Lexer.iseos buf m = false) := by
+  have := iseos_ref buf m
+  cases h : Lexer.iseos buf m <;> simp_all
+
+@[lexc_ref] theorem skipProgramMnemonic_ref (buf : Lexer.Bytes) (n : Nat) :
+    skipProgramMnemonic (st buf n) = (st buf (Lexer.skipProgramMnemonic buf n).1, (Lexer.skipProgramMnemonic buf n).2) := by
+  have hg := skipMany_ge buf (n + 1) (fun b => Lexer.isAlnum b || b == 95)
+  simp only [skipProgramMnemonic, Lexer.skipProgramMnemonic]
+  by_cases hlt : n < buf.length
+  · simp [iseos_in _ _ hlt, rd_in _ _ hlt, peekP_in _ _ _ hlt, lexc_cls, lexc_ref]
+    lexc_loop (fun b => Lexer.isAlnum b || b == 95), buf
+    cases ha : Lexer.isAlpha buf[n] <;> simp [iseos_eq0] <;> lexc_close
+  · have hge : buf.length ≤ n := Nat.le_of_not_lt hlt
+    simp [iseos_out _ _ hge, peekP_out _ _ _ hge, lexc_ref, Lexer.iseos, hge]
+
+theorem iseos_ne0 (buf : Lexer.Bytes) (m : Nat) : (iseos (st buf m) != 0) = Lexer.iseos buf m := iseos_ref buf m
+
+@[lexc_ref] theorem skipCommonProgramHeader_ref (buf : Lexer.Bytes) (n : Nat) :
+    skipCommonProgramHeader (st buf n) = (st buf (Lexer.skipCommonProgramHeader buf n).1, (Lexer.skipCommonProgramHeader buf n).2) := by
+  simp only [skipCommonProgramHeader, Lexer.skipCommonProgramHeader]
+  cases hp : Lexer.peekP buf n (· == 42)
+  · have hs : Lexer.skipOne buf n (· == 42) = n := by simp [Lexer.skipOne, hp]
+    simp [lexc_ref, one, hs]
+  · have hs : Lexer.skipOne buf n (· == 42) = n + 1 := by simp [Lexer.skipOne, hp]
+    have hm : (n : Int) + 1 - n = 1 := by omega
+    simp [lexc_ref, one, hs, hm, iseos_ne0]
+    lexc_close
+
+/-- what the body of the compound loop returns after the mnemonic behind a colon at offset `n` -/
+def compoundExit (buf : Lexer.Bytes) (n : Nat) : Option Int :=
+  if (Lexer.skipProgramMnemonic buf (n + 1)).2 ≤ -1 then some 1
+  else if (Lexer.skipProgramMnemonic buf (n + 1)).2 = 0 then some (-1) else none
+
+theorem skipProgramMnemonic_ge (buf : Lexer.Bytes) (m : Nat) : m ≤ (Lexer.skipProgramMnemonic buf m).1 := by
+  have hg := skipMany_ge buf (m + 1) (fun b => Lexer.isAlnum b || b == 95)
+  simp only [Lexer.skipProgramMnemonic]
+  repeat' split
+  all_goals simp
+  all_goals omega
+
+theorem compoundLoop_eq (buf : Lexer.Bytes) (f n : Nat) (l : Int) :
+    Lexer.compoundLoop buf f n =
+      ((loopM (fun n => Lexer.peekP buf n (· == 58)) (fun n => (Lexer.skipProgramMnemonic buf (n + 1)).1) (compoundExit buf)
+          (fun n _ => (Lexer.skipProgramMnemonic buf (n + 1)).2) f n l).1,
+       match (loopM (fun n => Lexer.peekP buf n (· == 58)) (fun n => (Lexer.skipProgramMnemonic buf (n + 1)).1) (compoundExit buf)
+          (fun n _ => (Lexer.skipProgramMnemonic buf (n + 1)).2) f n l).2.2 with
+       | some v => v
+       | none => 1) := by
+  induction f generalizing n l with
+  | zero => rfl
+  | succ f ih =>
+    simp only [Lexer.compoundLoop, loopM, compoundExit]
+    by_cases hp : Lexer.peekP buf n (· == 58) = true
+    case neg => simp [hp]
+    case pos =>
+      simp only [hp, if_true]
+      by_cases h1 : (Lexer.skipProgramMnemonic buf (n + 1)).2 ≤ -1
+      · simp [h1]
+      · by_cases h2 : (Lexer.skipProgramMnemonic buf (n + 1)).2 = 0
+        · simp [h2]
+        · simp [h1, h2]
+          exact ih _ _
+
+theorem compound_hg (buf : Lexer.Bytes) (k : Nat) (hk : Lexer.peekP buf k (· == 58) = true) :
+    k < buf.length ∧ k < (Lexer.skipProgramMnemonic buf (k + 1)).1 :=
+  ⟨peekP_lt hk, skipProgramMnemonic_ge buf (k + 1)⟩
+
+theorem compoundLoop_len (buf : Lexer.Bytes) (m : Nat) (l : Int) :
+    Lexer.compoundLoop buf (buf.length - m + 1) m =
+      ((loopM (fun n => Lexer.peekP buf n (· == 58)) (fun n => (Lexer.skipProgramMnemonic buf (n + 1)).1) (compoundExit buf)
+          (fun n _ => (Lexer.skipProgramMnemonic buf (n + 1)).2) (buf.length + 1) m l).1,
+       match (loopM (fun n => Lexer.peekP buf n (· == 58)) (fun n => (Lexer.skipProgramMnemonic buf (n + 1)).1) (compoundExit buf)
+          (fun n _ => (Lexer.skipProgramMnemonic buf (n + 1)).2) (buf.length + 1) m l).2.2 with
+       | some v => v
+       | none => 1) := by
+  rw [compoundLoop_eq buf _ m l]
+  rw [loopM_fuel _ _ _ _ buf.length (compound_hg buf) (buf.length + 1) (buf.length - m + 1) m l (by omega) (by omega)]
+
+@[lexc_ref] theorem skipCompoundProgramHeader_ref (buf : Lexer.Bytes) (n : Nat) :
+    skipCompoundProgramHeader (st buf n) =
+      (st buf (Lexer.skipCompoundProgramHeader buf n).1, (Lexer.skipCompoundProgramHeader buf n).2) := by
+  simp [skipCompoundProgramHeader, Lexer.skipCompoundProgramHeader, lexc_ref, one, Lexer.skipChr]
+  rw [whileC_jump (c := fun n => Lexer.peekP buf n (· == 58)) (g := fun n => (Lexer.skipProgramMnemonic buf (n + 1)).1)
+    (e := compoundExit buf) (upd := fun n _ => (Lexer.skipProgramMnemonic buf (n + 1)).2) (buf := buf)]
+  case ht =>
+    intro m l
+    simp [tripC, lexc_ref, one, compoundExit]
+    have hm : (m : Int) + 1 - m = 1 := by omega
+    cases hp : Lexer.peekP buf m (· == 58)
+    · have hs : Lexer.skipOne buf m (· == 58) = m := by simp [Lexer.skipOne, hp]
+      simp [hs]
+    · have hs : Lexer.skipOne buf m (· == 58) = m + 1 := by simp [Lexer.skipOne, hp]
+      simp [hs, hm]
+      repeat' split
+      all_goals simp_all
+  case hg => exact compound_hg buf
+  case hf => omega
+  have h0 := skipOne_ge buf n (· == 58)
+  generalize Lexer.skipOne buf n (· == 58) = p0 at *
+  rw [compoundLoop_len buf _ (Lexer.skipProgramMnemonic buf p0).2]
+  generalize Lexer.skipProgramMnemonic buf p0 = pm
+  generalize loopM _ _ _ _ _ _ _ = r
+  rcases r with ⟨a, b, _ | v⟩ <;> simp <;> lexc_close
+
+theorem scpiLex_ProgramHeader_ref (buf : Lexer.Bytes) (n : Nat) (tok : CTok) :
+    scpiLex_ProgramHeader (st buf n) tok = res buf (Lexer.lexProgramHeader buf n) := by
+  simp [scpiLex_ProgramHeader, Lexer.lexProgramHeader, lexc_ref, one, res, tk, Lexer.mkTok, Lexer.skipChr, uc]
+  generalize Lexer.skipCommonProgramHeader buf n = r1
+  generalize Lexer.skipCompoundProgramHeader buf r1.1 = r2
+  have h1 := skipOne_ge buf r1.1 (· == 63)
+  have h2 := skipOne_ge buf r2.1 (· == 63)
+  generalize Lexer.skipOne buf r1.1 (· == 63) = q1 at *
+  generalize Lexer.skipOne buf r2.1 (· == 63) = q2 at *
+  rcases r1 with ⟨a1, v1⟩
+  rcases r2 with ⟨a2, v2⟩
+  simp at *
+  lexc_close
+
 end ScpiVerif.Lemmas.LexerC
